@@ -42,6 +42,7 @@ def opaque_module(ctx, attr):
 def base_config(attr):
     cfg = api_config()
     cfg.loop_specs[(INNER, 0)] = true_loop("warning_list", "loop.reissue")
+    cfg.anchor_specs.append(("iodata.api", "warning_list", true_loop("warning_list", "loop.reissue")))
     U_ = utils_mod()
 
     def select(interp, args, kwargs):
@@ -111,6 +112,7 @@ def job_load_many():
     key = f"{API}.load_many"
     cfg.inline_generators.add(key)
     cfg.loop_specs[(key, 0)] = true_loop("format_module.load_many(lit", "loop.frames")
+    cfg.anchor_specs.append(("iodata.api", "format_module.load_many(lit", true_loop("format_module.load_many(lit", "loop.frames")))
 
     def havoc(interp, fn, args, kwargs):
         tag = getattr(fn, "tag", "")
